@@ -395,6 +395,31 @@ func (ex *Exec) strIndexByte(s Str, c *Term, last bool) *Term {
 	return res
 }
 
+// strIndexAny: index of the first (last) byte of s that is one of the ASCII bytes of the concrete set chars, -1 if none.
+func (ex *Exec) strIndexAny(s Str, chars string, last bool) *Term {
+	tc := ex.tc
+	ex.checkOpaque(s, "IndexAny")
+	ns, bs := ex.symParts(s)
+	res := tc.BV(^uint64(0), 64)
+	hit := func(p int) *Term {
+		in := tc.False
+		for i := 0; i < len(chars); i++ {
+			in = tc.Or(in, tc.Eq(bs[p], tc.BV(uint64(chars[i]), 8)))
+		}
+		return tc.And(tc.Ult(tc.BV(uint64(p), 64), ns), in)
+	}
+	if !last {
+		for p := len(bs) - 1; p >= 0; p-- {
+			res = tc.Ite(hit(p), tc.BV(uint64(p), 64), res)
+		}
+	} else {
+		for p := 0; p < len(bs); p++ {
+			res = tc.Ite(hit(p), tc.BV(uint64(p), 64), res)
+		}
+	}
+	return res
+}
+
 // newSymStr creates a fresh symbolic string with the given capacity.
 func (ex *Exec) newSymStr(tag string, capacity int) (Str, []*Term) {
 	tc := ex.tc
